@@ -17,7 +17,8 @@ import asyncio
 from .vloop import run as vrun
 
 BODIES = ["none", "bytes", "big", "gen-parked", "gen-finite"]
-PEERS = ["final-at-headers", "final-417-at-headers", "100-then-final", "final-after-body", "final-with-body-at-headers"]
+PEERS = ["final-at-headers", "final-417-at-headers", "100-then-final", "final-after-body", "final-with-body-at-headers",
+         "close-delimited-at-headers", "final-then-close-at-headers"]
 ENDINGS = ["release", "read", "close", "ctx", "cancel-request", "drop-peer"]
 
 
@@ -85,6 +86,15 @@ class PeerTransport(asyncio.Transport):
         reason = {200: b"OK", 417: b"Expectation Failed"}[status]
         self._send(b"HTTP/1.1 %d %s\r\nContent-Length: %d\r\n\r\n" % (status, reason, len(body)) + body)
 
+    def _peer_close(self):
+        if not self.closing:
+            self.closing = True
+            try:
+                self.proto.eof_received()
+            except Exception:  # noqa
+                pass
+            self._lost()
+
     def _react(self):
         if self.closing:
             return
@@ -120,6 +130,14 @@ class PeerTransport(asyncio.Transport):
                 self._final(417)
             elif p == "final-with-body-at-headers":
                 self._final(200, b"0123456789")
+            elif p == "close-delimited-at-headers":
+                # no Content-Length: the body ends when the peer closes the connection
+                self.answered = True
+                self._send(b"HTTP/1.1 200 OK\r\n\r\nclose-delimited body")
+                self.loop.call_soon(self._peer_close)
+            elif p == "final-then-close-at-headers":
+                self._final(200, b"bye")
+                self.loop.call_soon(self._peer_close)
             elif p == "100-then-final":
                 self._send(b"HTTP/1.1 100 Continue\r\n\r\n")
         if self.answered:
@@ -259,7 +277,8 @@ def judge(sc, obs):
         return out
     left = obs.get("acquired", 0) + obs.get("per_host", 0)
     if left:
-        w = "writer-parked-on-100-continue" if sc["expect100"] and sc["peer"] != "100-then-final" else \
+        w = "connection-closed-by-peer" if "close" in sc["peer"] else \
+            "writer-parked-on-100-continue" if sc["expect100"] and sc["peer"] != "100-then-final" else \
             "writer-pending" if sc["body"] in ("gen-parked", "big", "gen-finite") else "other"
         out.append((f"session/still-counted-after-{sc['ending']}/{w}",
                     f"after the exchange ended ({sc['ending']}) and 1 s settled: _acquired={obs.get('acquired')} "
